@@ -304,15 +304,16 @@ fn fam_lincomb<const N: usize>(ctx: &Ctx) {
         chk!(cs, "MontyForm::lincomb_vartime", &exp, Out::v(&w(&MontyForm::lincomb_vartime(&refs).retrieve())));
         chk!(cs, "MontyForm:Monty::lincomb_vartime", &exp, Out::v(&w(&<MontyForm<N> as Monty>::lincomb_vartime(&refs).retrieve())));
         chk!(cs, "sum of products (MontyForm)", &exp, Out::v(&w(&xs.iter().fold(MontyForm::zero(params), |acc, (x, y)| acc + x * y).retrieve())));
-        // the stored representative must be canonical too (retrieve() alone reduces a too-large accumulator away)
-        cs.group();
-        chk!(cs, "MontyForm::lincomb_vartime (representative < m)", &Out::Val(vec![1]), Out::Val(vec![(to_big(&w(MontyForm::lincomb_vartime(&refs).as_montgomery())) < *m) as u64]));
-        cs.group();
+
         let bparams = BoxedMontyParams::new_vartime(Odd::new(bx(&ml)).unwrap());
         let bxs: Vec<(BoxedMontyForm, BoxedMontyForm)> = av.iter().zip(&bv).map(|(x, y)| (BoxedMontyForm::new(bx(&from_big(x, N)), bparams.clone()), BoxedMontyForm::new(bx(&from_big(y, N)), bparams.clone()))).collect();
         let brefs: Vec<(&BoxedMontyForm, &BoxedMontyForm)> = bxs.iter().map(|(x, y)| (x, y)).collect();
         chk!(cs, "BoxedMontyForm::lincomb_vartime", &exp, Out::v(&bw(&BoxedMontyForm::lincomb_vartime(&brefs).retrieve())));
         chk!(cs, "BoxedMontyForm:Monty::lincomb_vartime", &exp, Out::v(&bw(&<BoxedMontyForm as Monty>::lincomb_vartime(&brefs).retrieve())));
+        // the stored representatives must be canonical too (retrieve() alone reduces a too-large accumulator away);
+        // these are separate statements, each in its own group - the five forms above stay ONE group (C15 pairs)
+        cs.group();
+        chk!(cs, "MontyForm::lincomb_vartime (representative < m)", &Out::Val(vec![1]), Out::Val(vec![(to_big(&w(MontyForm::lincomb_vartime(&refs).as_montgomery())) < *m) as u64]));
         cs.group();
         chk!(cs, "BoxedMontyForm::lincomb_vartime (representative < m)", &Out::Val(vec![1]), Out::Val(vec![(to_big(&bw(BoxedMontyForm::lincomb_vartime(&brefs).as_montgomery())) < *m) as u64]));
         // parameter sets built by the constant-time constructors and parameter sets that went through constant-time
